@@ -38,6 +38,22 @@ class E3(PlanError):
     pass
 
 
+class E0(PlanError):
+    """an Exception whose instances are falsy (a container-like exception with nothing in it)"""
+
+    def __len__(self):
+        return 0
+
+
+class CE(asyncio.CancelledError):
+    """a CancelledError raised by a node body itself (an awaited helper of the body was cancelled): a BaseException
+    that the engine did not ask for"""
+
+    def __init__(self, token):
+        super().__init__(token)
+        self.token = token
+
+
 class B1(BaseException):
     """a BaseException that is not an Exception"""
 
@@ -46,7 +62,8 @@ class B1(BaseException):
         self.token = token
 
 
-EXC = {'E1': E1, 'E2': E2, 'E3': E3, 'B1': B1, 'Exception': Exception, 'PlanError': PlanError}
+EXC = {'E0': E0, 'E1': E1, 'E2': E2, 'E3': E3, 'B1': B1, 'CE': CE, 'Exception': Exception, 'PlanError': PlanError,
+       'BaseException': BaseException}
 
 
 def short(nid):
@@ -115,7 +132,7 @@ class Runtime:
         from ml_pipeline_engine.dag.errors import BaseDagError
         from ml_pipeline_engine.dag.errors import OneOfDoesNotHaveResultError
         from ml_pipeline_engine.dag.errors import RecurrentSubgraphDoesNotHaveResultError
-        if isinstance(ex, (PlanError, B1)):
+        if isinstance(ex, (PlanError, B1, CE)):
             tok = ex.token
             if self.raised.get(tok) is not ex:
                 return ('err_copy',) + tuple(tok[1:])
